@@ -242,6 +242,28 @@ func c02Roundtrip(c *core.Ctx, k *core.Case) {
 		if again, err := m.PlainNasEncode(); err != nil || !bytes.Equal(again, wire) {
 			c.Fail(k, "encode-not-repeatable:"+def.Name, fmt.Sprintf("a third encode of the same %s gives %s (err %v), the first gave %s", def.Name, hx(again), err, hx(wire)))
 		}
+		// the body is edited in place (same Message, same family pointer, same body pointer,
+		// same header): the next encode is that of the value as it is now — the same bytes and
+		// the same error as for a fresh copy of it, whatever was encoded from this object before
+		if _, _, body := bodyPointers(m); body != nil {
+			edited := 0
+			walkBytes(reflect.ValueOf(body), func(v reflect.Value) {
+				if n := v.Len(); n > 0 && v.Index(n-1).CanSet() {
+					v.Index(n - 1).SetUint(v.Index(n-1).Uint() ^ 0x01)
+					edited++
+				}
+			})
+			flipArrays(reflect.ValueOf(body), &edited)
+			if edited > 0 {
+				fresh := deepCopy(reflect.ValueOf(m)).Interface().(*nas.Message)
+				got, gerr := m.PlainNasEncode()
+				want, werr := fresh.PlainNasEncode()
+				c.Count("encodes_after_in_place_edit", 1)
+				if (gerr == nil) != (werr == nil) || !bytes.Equal(got, want) {
+					c.Fail(k, "encode-after-edit-stale:"+def.Name, fmt.Sprintf("%s edited in place (%d content octets flipped) after it had been encoded: PlainNasEncode gives %s (err %v), a fresh copy of the same value gives %s (err %v)", def.Name, edited, hx(got), gerr, hx(want), werr))
+				}
+			}
+		}
 		return
 	}
 	if !reflect.DeepEqual(orig, back) {
